@@ -126,7 +126,8 @@ def inMatchItem : Nat → Word → List Item → List MatchEl → Nat → SegPos
       match st with
       | .variable n m => do
         let r ← inMatchVar w caps si n m pos b
-        pure (if r.ok then { r with si := r.si + 1 } else r)
+        -- `*state_index = this_state + 1`: one input element is one state, whatever the callee did to the index
+        pure (if r.ok then { r with si := si + 1 } else r)
       | .ipa s m => do
         let (hit, caps1, p1, b1) ← inMatchIpa w caps s m pos b
         pure (if hit then ⟨true, caps1, si + 1, p1.increment w, b1⟩ else ⟨false, caps1, si, p1, b1⟩)
@@ -135,7 +136,7 @@ def inMatchItem : Nat → Word → List Item → List MatchEl → Nat → SegPos
         pure (if hit then ⟨true, caps1, si + 1, p1.increment w, b1⟩ else ⟨false, caps1, si, p1, b1⟩)
       | .set items => do
         let r ← inMatchSet w items 0 caps si pos b pos b
-        pure (if r.ok then { r with si := r.si + 1 } else r)
+        pure (if r.ok then { r with si := si + 1 } else r)
       | .syllBound =>
         .ok (if pos.gi == 0 then ⟨true, caps ++ [.syllBound pos.si none], si + 1, pos, b⟩ else ⟨false, caps, si, pos, b⟩)
       | .syllable s c t v => inMatchSyll w caps si s c t v pos b
